@@ -151,11 +151,16 @@ func (e *c20Env) open() error {
 		case cfg.Pkg == "middleware":
 			// the middleware package needs the resource type set first
 			m := middleware.BadgerDB{DB: db}
-			if e.seq%2 == 1 {
-				m = middleware.BadgerDB{}.WithDB(db)
-			}
 			if cfg.Default {
 				m = m.WithDefault(e.def)
+			}
+			if e.seq%2 == 1 {
+				// an option template (default set, no database yet) bound to the database last
+				m = middleware.BadgerDB{}
+				if cfg.Default {
+					m = m.WithDefault(e.def)
+				}
+				m = m.WithDB(db)
 			}
 			if cfg.Type == "model" {
 				opt = res.OptionFunc(func(h *res.Handler) { res.Model.SetOption(h); m.SetOption(h) })
